@@ -10,6 +10,18 @@ NOTE = ("Trusted base: go/types (type checking and constant evaluation), golang.
         "The check decides the named structural clauses only; the value-level remainder listed in the evidence under not_covered is not claimed.")
 
 CLAIMED = {
+ "C12": dict(level="other",
+   technique="static analysis: forbidden-construct rule on unchecked type assertions over server-chosen values in package kmipclient (discharged only through the attribute type table), dominating-length-check rule for batch item indexing, dominance of the Err()==nil edge over success returns, presence of the operation comparison before items are returned",
+   text="Decides the structural guards that turn any server response into either the right payload or an error: no panicking type assertion on a payload, object, attribute value or parsed key whose dynamic type the server chooses (three such assertions were repaired; the remaining ones are proven from attrTypes), every constant index into response items is implied by a count check, a payload is returned as success only on the Err()==nil edge of an Err() that reports status, reason and message for every non-success status, and items are returned only after both the item's operation and its payload's operation were compared with the requested one. The enumeration of all response shapes is not performed.",
+   ref="§4 C12"),
+ "C13": dict(level="other",
+   technique="static analysis: value-origin dataflow of every store to Client.version (membership guard by slices.Contains on the client's set), recognition of the maximum-selection idiom, who-stamps-what on request construction",
+   text="Decides that whatever a server answers to version discovery, the version stored in the client originates only from candidates taken under a membership test against the client's configured set (or 1.0 under the same test on the discovery-unsupported branch), that the selection keeps the greater by CompareVersions rather than a positional pick (the former serverVersions[0] is repaired and guarded), that the store happens only when a common version exists, that discovery is bypassed exactly when a version is enforced, and that every request is built with the adopted version. The 31x32 table of version sets is not enumerated.",
+   ref="§4 C13"),
+ "C19": dict(level="other",
+   technique="static analysis: discovery of continuation closures over middleware slices; write-after-creation rule on the captured chain position, parameter-forwarding identity, index/continuation/len-guard relations, who-may-write on the chain slices",
+   text="Decides ordering and re-entrancy for all three chains and every composition of stages: the position a continuation uses is bound per continuation and never written once it exists (the shared cursor that made a retrying middleware skip inner stages is repaired and guarded), stage and core receive the continuation's own context and message and their results are returned unchanged, stage k gets the continuation for k+1 with the core on the other edge of position < len(chain), chains start at 0, registration appends in order, and the chain slices are written only while being registered or constructed. User-written stages are outside.",
+   ref="§4 C19"),
  "C10": dict(level="other",
    technique="static analysis: who-may-call and lock-bracket dominance on the exchange path of package kmipclient; teardown-before-error-exit dominance after the request hand-off; per-connection ownership of hand-off channels",
    text="Decides the structural reasons why a caller can only get its own response, for every interleaving at once: an exchange exists only inside doRountrip between Lock and the deferred Unlock of a mutex every constructor creates afresh; once the request has been handed to the connection every error exit of the exchange is dominated by a teardown (the missing teardown when the context ends between send and recv is repaired and guarded), so no connection with a response still in flight is ever reused; channels are created per connection, the old connection is closed before a new one replaces it, and send/recv refuse a closed connection. Server-side reordering and the end-to-end statement under a real scheduler are not decided.",
